@@ -15,3 +15,12 @@ SPECS["C03"] = {
     "outside": "nothing within the statement; the adaptive decoder's locked states are covered under C08",
     "assumptions": ["oracle: PS3.5 7.1 layout function and VR tables written in the harness crate (kani/common/common.rs, kani/enc/src/c03.rs)"],
 }
+
+SPECS["C07"] = {
+    "parts": [{"engine": "kani", "group": "parser", "select": r"^c07_", "mem_gb": 8,
+               "timeout": {"quick": 900, "thorough": 1800}}],
+    "functions": ["dicom_parser::stateful::decode::StatefulDecoder::{read_value, read_value_preserved, read_value_bytes} and the per-VR readers they dispatch to"],
+    "bounds": "one harness per (VR class, concrete odd declared length in 1..9); source bytes symbolic (8 or 12 bytes)",
+    "outside": "declared lengths above 9",
+    "assumptions": ["StandardDataDictionary::indexed_tag stubbed to 'unknown attribute' (only used for the pixel-padding VR fix-up)", "tracing macros stubbed to disabled"],
+}
